@@ -1331,7 +1331,14 @@ def gen_history(rng, be):
                 f'    s.out2 = OutPort( Bits{W} )']
   for k, e in enumerate(es):
     L += [f"    {'if' if k == 0 else 'elif'} k == {k}:" if k < n - 1 else '    else:', f'      s.out //= lambda: {e}']
-  L += [f"    s.out2 //= lambda: s.b {rng.choice('+^')} k" if rng.random() < 0.5 else '    s.out2 //= s.b']
+  if rng.random() < 0.5:
+    L += [f"    s.out2 //= lambda: s.b {rng.choice('+^')} k" if rng.random() < 0.5 else '    s.out2 //= s.b']
+  else:
+    # constants of the INSTANCE derived from the parameter, read through attributes / constant subscripts in a named block
+    # (the per-class AST of the block is shared by the instances: seeded C03-3)
+    m = rng.randint(1, (1 << W) // 4 - 1)
+    L += [f'    s.LIM = k * {m} + {rng.randint(0, 3)}', f'    s.STEP = Bits{W}( k + {rng.randint(1, 5)} )', f'    s.TAB = [ Bits{W}( {rng.randint(0, 7)} + k ), Bits{W}( {(1 << W) - 1} - k ) ]',
+          '    @update', '    def upc():', f"      s.out2 @= ( s.b {rng.choice('+^')} s.STEP ) {rng.choice('^+')} s.TAB[{rng.randint(0, 1)}] if s.in_ < s.LIM else s.TAB[{rng.randint(0, 1)}]"]
   hist = [[k] for k in range(n)] + ([[rng.randrange(n)]] if rng.random() < 0.4 else [])
   rng.shuffle(hist)
   src = '\n'.join(L) + '\n'
